@@ -95,6 +95,8 @@ async fn one(ctx: &mut Ctx, rng: &mut Rng, is_pay: bool, init: Vec<Part>, script
                     let can = match p.method.as_str() { "waitsendpay" => { let id = p.params["partid"].as_u64().unwrap_or(0); parts.iter().any(|q| q.id == id && q.st != PSt::Pending) } _ => true };
                     if can { cands.push(format!("s:{}", t)); cands.push(format!("s:{}", t)); }
                     if faults && rng.coin(1, 12) { cands.push(format!("e:{}", t)); }
+                    // a waitsendpay that gives up (documented code 200, the part is still pending) — likelier than other errors
+                    if faults && !can && p.method == "waitsendpay" && rng.coin(1, 3) { cands.push(format!("e:{}", t)); cands.push(format!("e:{}", t)); }
                 }
             }
             // adversarial: between the two listings, complete a pending part
@@ -128,7 +130,7 @@ async fn one(ctx: &mut Ctx, rng: &mut Rng, is_pay: bool, init: Vec<Part>, script
                 }
             } else if let Some(t) = act.strip_prefix("e:") {
                 if let Some(i) = n.parked.iter().position(|p| p.served.is_none() && tok(&p.method, &p.params) == t) {
-                    let code = *rng.pick(&[Some(-1), Some(200), Some(210), None, Some(-32602)]);
+                    let code = if n.parked[i].method == "waitsendpay" { *rng.pick(&[Some(200), Some(200), Some(200), Some(-1), Some(210), None]) } else { *rng.pick(&[Some(-1), Some(200), Some(210), None, Some(-32602)]) };
                     n.parked[i].served = Some(Err((code, "injected read fault".into())));
                     fault_seen = true;
                 }
